@@ -218,7 +218,9 @@ class ServerSystem:
         if svc is not None:
             snap = (svc.service_meta.get('state'), svc.config is not None, svc.sse_scheme is not None, svc.edb is not None,
                     svc.sse_module_loader is not None)
-        timers = sum(1 for h in s.w.loop._live_timers() if s.w.loop._delays.get(id(h), 0) <= s.w.loop.SHORT)
+        # armed cleanup timers: 0, 1 or "several" - a cleanup that is no longer the registry entry's own has no effect when it
+        # fires, so their exact number is not part of the canonical state (the undeduplicated DFS does not rely on this)
+        timers = min(2, sum(1 for h in s.w.loop._live_timers() if s.w.loop._delays.get(id(h), 0) <= s.w.loop.SHORT))
         lock = getattr(getattr(mgr, '_access_dict_lock', None), 'locked', lambda: None)()
         return (md['state'], md['cfg'], md['edb'], md['open'], fh, reg, snap, timers, lock)
 
